@@ -363,7 +363,7 @@ Proof.
   intros Hb Np Hr HI Ha. unfold format_block, seam_formatters. cbn [foldM].
   rewrite HI. cbn [bind fst snd].
   rewrite (empty_line_remover_nl s p Hb Np Hr).
-  unfold prev_line_break_remover, next_line_break_remover.
+  unfold prev_line_break_remover, next_line_break_remover. rewrite Hb, Hr. cbn [negb].
   destruct (two_next s p) as [q'|]; destruct (two_prev s p) as [q|];
     cbn [is_none andb bind fst snd]; f_equal; f_equal; lia.
 Qed.
@@ -491,6 +491,75 @@ Proof.
     apply (indent_loop_after_code s p i b Hs Hi Ni Bb Hne Hbl).
 Qed.
 
+(* after code on the same line none of the four seam formatters touches anything, whatever the
+   byte at [p] is.  [wf_utf8 s] is needed for the indent remover (see above) and for the
+   previous-line-break remover: both scan backwards skipping positions that are not character
+   boundaries, so a stray continuation byte at [i] would be passed over. *)
+Lemma two_prev_after_code : forall s p i b,
+  wf_utf8 s = true ->
+  i < p -> nth_error s i = Some b -> is_blank b = false -> b <> NL ->
+  (forall j c, i < j -> j < p -> nth_error s j = Some c -> is_blank c = true) ->
+  two_prev s p = None.
+Proof.
+  intros s p i b Hs Hi Ni Bb Hne Hbl. unfold two_prev.
+  destruct (find_prev_lb s p true) as [q|] eqn:F; [|reflexivity]. exfalso.
+  pose proof (find_prev_lb_some _ _ _ _ F) as (Q1 & Q2 & Q3 & Q4).
+  destruct (Nat.lt_trichotomy i q) as [L | [E | G]].
+  - (* a line break strictly between i and p *)
+    pose proof (Hbl q NL L Q1 Q3) as K. discriminate K.
+  - subst q. rewrite Ni in Q3. inversion Q3. contradiction.
+  - (* i lies in the run the scan passed: it would be a blank *)
+    destruct (find_prev_lb_pause_run s p q Hs F i G Hi) as (_ & d & Nd & Bd).
+    rewrite Ni in Nd. inversion Nd; subst d. congruence.
+Qed.
+
+Lemma prev_line_break_remover_after_code : forall s p i b,
+  wf_utf8 s = true ->
+  i < p -> nth_error s i = Some b -> is_blank b = false -> b <> NL ->
+  (forall j c, i < j -> j < p -> nth_error s j = Some c -> is_blank c = true) ->
+  prev_line_break_remover s p = Ok (p, p).
+Proof.
+  intros s p i b Hs Hi Ni Bb Hne Hbl. unfold prev_line_break_remover.
+  rewrite (two_prev_after_code s p i b Hs Hi Ni Bb Hne Hbl). reflexivity.
+Qed.
+
+(** When the line is not blank up to [p] the guard of the next-line-break remover fires. *)
+Lemma next_line_break_remover_nonblank_residue s p :
+  residue_is_blank s p = false -> next_line_break_remover s p = Ok (p, p).
+Proof.
+  intros Hr. unfold next_line_break_remover. rewrite Hr. cbn [negb].
+  destruct (negb (is_boundary s p)); reflexivity.
+Qed.
+
+Lemma next_line_break_remover_after_code : forall s p i b,
+  i < p -> nth_error s i = Some b -> is_blank b = false -> b <> NL ->
+  (forall j c, i < j -> j < p -> nth_error s j = Some c -> is_blank c = true) ->
+  next_line_break_remover s p = Ok (p, p).
+Proof.
+  intros s p i b Hi Ni Bb Hne Hbl.
+  apply next_line_break_remover_nonblank_residue.
+  apply (residue_is_blank_false s p i b Hi Ni Bb Hne Hbl).
+Qed.
+
+Theorem seam_after_code_untouched : forall s p i b,
+  wf_utf8 s = true -> is_boundary s p = true -> p <= length s ->
+  i < p -> nth_error s i = Some b -> is_blank b = false -> b <> NL ->
+  (forall j c, i < j -> j < p -> nth_error s j = Some c -> is_blank c = true) ->
+  format_block s p = Ok (p, p).
+Proof.
+  intros s p i b Hs Hb _ Hi Ni Bb Hne Hbl.
+  unfold format_block, seam_formatters. cbn [foldM].
+  rewrite (indent_remover_no_indent s p (indent_loop_after_code s p i b Hs Hi Ni Bb Hne Hbl)).
+  cbn [bind fst snd].
+  rewrite (empty_line_remover_after_code s p i b Hb Hi Ni Bb Hne Hbl).
+  cbn [bind fst snd].
+  rewrite (prev_line_break_remover_after_code s p i b Hs Hi Ni Bb Hne Hbl).
+  cbn [bind fst snd].
+  rewrite (next_line_break_remover_after_code s p i b Hi Ni Bb Hne Hbl).
+  cbn [bind fst snd].
+  rewrite !Nat.min_id, !Nat.max_id. reflexivity.
+Qed.
+
 (* variant for an ill-formed string: enough that the byte at [i] is not a continuation byte *)
 Theorem seam_after_code_keeps_line_break_noncont : forall s p i b,
   is_cont b = false ->
@@ -514,6 +583,13 @@ Example ex_after_code_needs_wf :
 Proof. vm_compute. repeat split; reflexivity. Qed.
 (* "xy \ny" with the seam at the line break, p = 3: nothing goes, the line break stays *)
 Example ex_after_code : format_block [X; Y; SP; NL; Y] 3 = Ok (3, 3).
+Proof. vm_compute. reflexivity. Qed.
+(* "xy \n \ny", p = 3: the blank next line stays too (before the fix of the next-line-break
+   remover the result was (3, 5)) *)
+Example ex_after_code_next_blank : format_block [X; Y; SP; NL; SP; NL; Y] 3 = Ok (3, 3).
+Proof. vm_compute. reflexivity. Qed.
+(* "xy  y", p = 3: the seam is not at a line break at all *)
+Example ex_after_code_inline : format_block [X; Y; SP; SP; Y] 3 = Ok (3, 3).
 Proof. vm_compute. reflexivity. Qed.
 
 (* known finding KF1, stated as a theorem about the model: at the start of the file the indentation
@@ -546,6 +622,7 @@ Print Assumptions seam_at_file_start.
 Print Assumptions residue_is_blank_true.
 Print Assumptions residue_is_blank_false.
 Print Assumptions seam_after_code_keeps_line_break.
+Print Assumptions seam_after_code_untouched.
 Print Assumptions seam_after_code_keeps_line_break_noncont.
 Print Assumptions prev_line_blank_unique.
 Print Assumptions next_line_blank_unique.
